@@ -35,6 +35,8 @@ func init() {
 			Old: "\treturn ls.submitCollectorMsg(ctx, &CollectorMsg{CollectorID: cid, Msg: resp})", New: "\tout := &CollectorMsg{Msg: resp}\n\tout.CollectorID = cid\n\treturn ls.submitCollectorMsg(ctx, out)"},
 		{Name: "done channel of the receiver taken from the context inline", Kill: false, File: fReader,
 			Old: "\t\tselect {\n\t\tcase <-doneCh:\n\t\t\tbreak process\n\t\tcase receiver.messageCh <- msg:\n\t\t}", New: "\t\t_ = doneCh\n\t\tselect {\n\t\tcase <-receiver.ctx.Done():\n\t\t\tbreak process\n\t\tcase receiver.messageCh <- msg:\n\t\t}"},
+		{Name: "relay re-broadcasts the current task when a collector subscribes (seed C17-r2b)", Kill: true, Rule: "C17-ROUTE", File: "fractal/superior.go",
+			Old: "\trs.baseSuperior.Subscribe(ctx, c)\n\tif task := rs.latestTask; task != nil {\n\t\trs.Send(ctx, c.ID(), task)\n", New: "\trs.baseSuperior.Subscribe(ctx, c)\n\tif task := rs.latestTask; task != nil {\n\t\trs.Broadcast(ctx, task)\n"},
 	}
 }
 
